@@ -513,6 +513,10 @@ func witnesses() []scenario {
 			{K: "sched"}, {K: "advhold", D: sec}, {K: "pause"}, {K: "release"}, {K: "adv", D: sec}, {K: "resume"}, {K: "sched"}, {K: "adv", D: sec}}},
 		{Name: "w-stale-timer-after-reschedule", Mode: "reconnector", Cfg: std, NAddr: 1, Ops: []op{
 			{K: "sched"}, {K: "advhold", D: sec}, {K: "sched"}, {K: "release"}, {K: "adv", D: sec}, {K: "reply"}, {K: "adv", D: 2 * sec}}},
+		{Name: "w-stale-timer-after-reset", Mode: "reconnector", Cfg: std, NAddr: 1, Ops: []op{
+			{K: "sched"}, {K: "advhold", D: sec}, {K: "cancel"}, {K: "sched"}, {K: "release"}, {K: "adv", D: sec}, {K: "reply"}, {K: "adv", D: 2 * sec}}},
+		{Name: "w-stale-timer-after-resetall-manager", Mode: "manager", Cfg: std, NAddr: 1, Ops: []op{
+			{K: "sched"}, {K: "advhold", D: sec}, {K: "resetall"}, {K: "sched"}, {K: "release"}, {K: "adv", D: sec}, {K: "reply"}, {K: "adv", D: 2 * sec}}},
 		{Name: "w-sleep-with-no-peer-connected", Mode: "manager", Cfg: std, NAddr: 1, Ops: []op{
 			{K: "sched"}, {K: "pause"}, {K: "adv", D: sec}, {K: "adv", D: 2 * sec}, {K: "resume"}, {K: "sched"}, {K: "adv", D: sec}}},
 		{Name: "w-agent-settings-no-jitter", Mode: "agent", Cfg: std, NAddr: 1, Ops: []op{
